@@ -353,14 +353,23 @@ Section Thms.
     apply (keys_frame nonstr qs fss (sort_pairs L) x x' (rows_okb_P _ _ _ Hok) Hno H).
   Qed.
 
+  (* all matching field specs that end at the read path carry the same create flag. Not used by the proofs:
+     it is the domain on which the model is tied to the implementation (a create=false spec that ends at a
+     null scalar hides the entry in the scalar's Content, a later create=true spec for the same path would
+     surface it; FsSlice.MergeOne rejects such pairs and the default tables contain none). *)
+  Definition uniform_create (qs : list string) (fss : list fieldspec) (x : node) : bool :=
+    forallb (fun fs => forallb (fun fs' =>
+       negb (exact_match qs x fs && exact_match qs x fs') || Bool.eqb (fs_create fs) (fs_create fs')) fss) fss.
+
   (* hit: where a matching create=true field spec ends, exactly the directive's labels arrive *)
   Theorem exact_locations_hit : forall (L : pairs) (fss : list fieldspec) (x x' : node) (qs : list string),
-    rows_okb qs fss x = true -> is_map x = true -> no_seq_along qs x = true ->
+    rows_okb qs fss x = true -> uniform_create qs fss x = true ->
+    is_map x = true -> no_seq_along qs x = true ->
     has_create qs fss x = true ->
     label_filter nonstr L fss x = Ok x' ->
     labels_at qs x' = upd_all (sort_pairs L) (labels_at qs x).
   Proof.
-    intros L fss x x' qs Hok Hm Hn Hc H.
+    intros L fss x x' qs Hok _ Hm Hn Hc H.
     apply (keys_hit nonstr qs fss (sort_pairs L) x x' (rows_okb_P _ _ _ Hok) Hm Hn Hc H).
   Qed.
 End Thms.
@@ -580,4 +589,128 @@ Proof.
   cbv zeta. split; [vm_compute; reflexivity|]. split; [reflexivity|]. split; [vm_compute; reflexivity|].
   split; [apply selectsb_selects; vm_compute; reflexivity|].
   eexists. split; [vm_compute; reflexivity|]. split; vm_compute; reflexivity.
+Qed.
+
+(* ---------- more instances at the default tables ---------- *)
+Section Thms2.
+  Variable nonstr : string -> bool.
+
+  Lemma wf_entry_tmpl t fss x tp :
+    label_fs default_tc (mkLD [] false t []) = Ok fss -> tmpl_path_of x = Some tp ->
+    rows_okP (path_splitter tp) fss x.
+  Proof.
+    intros Hfs H. apply tmpl_path_of_in in H.
+    pose proof gen_rows_wf as W. cbn [forallb entry_tables] in W.
+    apply andb_true_iff in W as [_ W]. apply andb_true_iff in W as [W1 W]. apply andb_true_iff in W as [W2 _].
+    destruct t.
+    - rewrite Hfs in W1. unfold chk_rows_wf in W1. apply andb_true_iff in W1 as [_ W1].
+      rewrite forallb_forall in W1. eapply rows_wf_sound; [apply (W1 _ H)|reflexivity].
+    - rewrite Hfs in W2. unfold chk_rows_wf in W2. apply andb_true_iff in W2 as [_ W2].
+      rewrite forallb_forall in W2. eapply rows_wf_sound; [apply (W2 _ H)|reflexivity].
+  Qed.
+
+  Lemma entry_no_sel t fss x sp :
+    label_fs default_tc (mkLD [] false t []) = Ok fss -> sel_path_of x = Some sp ->
+    rows_okP (path_splitter sp) fss x /\ has_exact (path_splitter sp) fss x = false.
+  Proof.
+    intros Hfs Hsp. pose proof (sel_path_of_in _ _ Hsp) as HIn.
+    pose proof gen_no_selector_rows as G. unfold chk_no_selector_rows in G.
+    pose proof gen_rows_wf as W. cbn [forallb entry_tables] in W.
+    apply andb_true_iff in W as [_ W]. apply andb_true_iff in W as [W1 W]. apply andb_true_iff in W as [W2 _].
+    destruct t.
+    - cbn [forallb] in G. apply andb_true_iff in G as [G _].
+      rewrite Hfs in G, W1. unfold chk_rows_wf in W1. apply andb_true_iff in W1 as [W1 _].
+      rewrite forallb_forall in G, W1. split.
+      + eapply rows_wf_sound; [apply (W1 _ HIn)|reflexivity].
+      + eapply no_rows_at_sound; [apply (G _ HIn)|reflexivity].
+    - cbn [forallb] in G. apply andb_true_iff in G as [_ G]. apply andb_true_iff in G as [G _].
+      rewrite Hfs in G, W2. unfold chk_rows_wf in W2. apply andb_true_iff in W2 as [W2 _].
+      rewrite forallb_forall in G, W2. split.
+      + eapply rows_wf_sound; [apply (W2 _ HIn)|reflexivity].
+      + eapply no_rows_at_sound; [apply (G _ HIn)|reflexivity].
+  Qed.
+
+  (* labels WITHOUT includeSelectors (no custom fields): selector/template agreement survives when no key
+     overrides a requirement of the selector with another value *)
+  Theorem own_selector_nonselector_default :
+    forall (p : pairs) (t : bool) (fss : list fieldspec) (w w' : node) (sp tp : string),
+      label_fs default_tc (mkLD p false t []) = Ok fss ->
+      assoc3 (obj_kind w) k8s_workloads = Some (Some sp, tp) ->
+      is_map w = true -> no_seq_along (path_splitter tp) w = true ->
+      (forall kv, In kv p -> compat (fst kv) (snd kv) (sel_of w)) ->
+      selects w w ->
+      label_filter nonstr p fss w = Ok w' ->
+      selects w' w'.
+  Proof.
+    intros p t fss w w' sp tp Hfs HK Hm Hn Hcomp Hsel H. rewrite label_fs_no_fields in Hfs.
+    assert (Hsp : sel_path_of w = Some sp) by (unfold sel_path_of; rewrite HK; reflexivity).
+    assert (Htp : tmpl_path_of w = Some tp) by (unfold tmpl_path_of; rewrite HK; reflexivity).
+    destruct (entry_no_sel _ _ _ _ Hfs Hsp) as [Wsp Hno].
+    pose proof (wf_entry_tmpl _ _ _ _ Hfs Htp) as Wtp.
+    pose proof (keys_gvk_same nonstr _ _ _ _ _ Wsp H) as Hg.
+    unfold selects, sel_of, pod_labels_of in *.
+    rewrite (gvk_same_sel_path _ _ Hg), (gvk_same_tmpl_path _ _ Hg), Hsp, Htp in *. cbn [opt_labels_at] in *.
+    eapply (selects_preserved_generic nonstr (path_splitter sp) (path_splitter tp) fss
+              (sort_pairs p) w w w' w'); eauto.
+    - intros Hex. rewrite Hno in Hex. discriminate.
+    - intros _. right. intros kv Hin. apply Hcomp. apply sort_pairs_in; exact Hin.
+  Qed.
+
+  (* what arrives at metadata.labels, for every object and each of the default label lists *)
+  Theorem metadata_labels_default : forall (L : pairs) (x x' : node),
+    is_map x = true -> no_seq_along ["metadata"; "labels"] x = true ->
+    label_filter nonstr L gen_common_labels_fs x = Ok x' ->
+    meta_labels_of x' = upd_all (sort_pairs L) (meta_labels_of x).
+  Proof.
+    intros L x x' Hm Hn H. destruct gen_metadata_rows as [G _].
+    destruct (meta_table_ok_sound _ _ x G) as [Hok Hc].
+    apply (keys_hit nonstr (path_splitter "metadata/labels") gen_common_labels_fs (sort_pairs L) x x'
+             (rows_okb_P _ _ _ Hok) Hm Hn Hc H).
+  Qed.
+
+  (* ... and at the pod template of a workload covered by a create=true template row *)
+  Theorem pod_labels_default : forall (L : pairs) (w w' : node) (tp : string),
+    tmpl_path_of w = Some tp -> is_map w = true -> no_seq_along (path_splitter tp) w = true ->
+    has_create (path_splitter tp) gen_common_labels_fs w = true ->
+    label_filter nonstr L gen_common_labels_fs w = Ok w' ->
+    pod_labels_of w' = upd_all (sort_pairs L) (pod_labels_of w).
+  Proof.
+    intros L w w' tp Htp Hm Hn Hc H.
+    pose proof (wf_common_tmpl _ _ Htp) as Wtp.
+    pose proof (keys_gvk_same nonstr _ _ _ _ _ Wtp H) as Hg.
+    unfold pod_labels_of. rewrite (gvk_same_tmpl_path _ _ Hg), Htp. cbn [opt_labels_at].
+    apply (keys_hit nonstr (path_splitter tp) gen_common_labels_fs (sort_pairs L) w w' Wtp Hm Hn Hc H).
+  Qed.
+End Thms2.
+
+(* the generic two-object theorem on the domain where the model is tied to the implementation *)
+Theorem selects_preserved_generic_u :
+  forall (nonstr : string -> bool) (sp tp : list string) (fss : list fieldspec) (kvs : pairs) (s w s' w' : node),
+    rows_okP sp fss s -> rows_okP tp fss w ->
+    uniform_create sp fss s = true -> uniform_create tp fss w = true ->
+    is_map w = true -> no_seq_along tp w = true ->
+    (has_exact sp fss s = true -> has_create tp fss w = true) ->
+    (has_exact sp fss s = false ->
+     has_exact tp fss w = false \/ forall kv, In kv kvs -> compat (fst kv) (snd kv) (labels_at sp s)) ->
+    sub (labels_at sp s) (labels_at tp w) ->
+    keys_pass nonstr fss kvs s = Ok s' -> keys_pass nonstr fss kvs w = Ok w' ->
+    sub (labels_at sp s') (labels_at tp w').
+Proof. intros nonstr sp tp fss kvs s w s' w' H1 H2 _ _. apply selects_preserved_generic; auto. Qed.
+
+(* a Service and a Deployment under `labels: [{pairs: {app: new}, includeTemplates: true}]` *)
+Lemma selects_preserved_templates_refuted :
+  exists (L : pairs) (fss : list fieldspec) (s w s' w' : node),
+    label_fs default_tc (mkLD L false true []) = Ok fss /\
+    sel_path_of s <> None /\ tmpl_path_of w <> None /\
+    selects s w /\ label_filter nq L fss s = Ok s' /\ label_filter nq L fss w = Ok w' /\ ~ selects s' w'.
+Proof.
+  exists [("app", "new")]. eexists.
+  exists (Map [("apiVersion", str "v1"); ("kind", str "Service"); ("metadata", Map [("name", str "r1")]);
+               ("spec", Map [("selector", Map [("app", str "old")])])]).
+  exists (wit_deployment "apps/v1" [("app", str "old")] [("app", str "old")]). eexists. eexists.
+  split; [vm_compute; reflexivity|].
+  split; [vm_compute; discriminate|]. split; [vm_compute; discriminate|].
+  split; [apply selectsb_selects; vm_compute; reflexivity|].
+  split; [vm_compute; reflexivity|]. split; [vm_compute; reflexivity|].
+  intros H. apply selectsb_selects in H. vm_compute in H. discriminate.
 Qed.
